@@ -101,13 +101,19 @@ def gen_seq(rng, n, family):
     if family == 'repeating':
         c = rng.choice([0.1, 0.7, -0.3, 1e300 / 3, 1.1e-300, 2.0 / 3])
         return [c if rng.random() < 0.85 else c * rng.choice([0.5, 2.0]) for _ in range(n)]
+    if family == 'plateau':
+        # the stream opens with more identical observations than any grid has markers (dark frames, a run of zeros), and the
+        # smallest value keeps coming back (zero-inflated counts): markers sit on a plateau while their ranks must still move
+        c = rng.choice([0.0, 0.0, -8.0, 3.5])
+        k = min(n, rng.randint(6, 16))
+        return [c] * k + [c if rng.random() < 0.3 else c + rng.randint(1, 64) / 4.0 for _ in range(n - k)]
     if family == 'mixedties':
         base = [rng.gauss(0, 1) for _ in range(max(2, n // 4))]
         return [rng.choice(base) for _ in range(n)]
     raise ValueError(family)
 
 
-FAMILIES = ['uniform', 'tied', 'constant', 'sorted', 'reversed', 'extreme', 'huge', 'ints', 'gauss', 'mixedties', 'tinyscale', 'hugescale', 'repeating']
+FAMILIES = ['uniform', 'tied', 'constant', 'sorted', 'reversed', 'extreme', 'huge', 'ints', 'gauss', 'mixedties', 'tinyscale', 'hugescale', 'repeating', 'plateau']
 
 
 # ---------------------------------------------------------------------------
@@ -121,7 +127,7 @@ def paper_init(p, first):
     return dict(p=list(p), N=len(first), q=sorted(first), n=list(range(1, len(first) + 1)))
 
 
-def paper_step(st, x, num=float, margins=None):
+def paper_step(st, x, num=float, margins=None, rank_margins=None):
     p, q, n = st['p'], list(st['q']), list(st['n'])
     m = len(q)
     N = st['N'] + 1
@@ -144,6 +150,8 @@ def paper_step(st, x, num=float, margins=None):
         d = desired[i] - n[i]
         if margins is not None:
             margins.append(abs(abs(float(d)) - 1.0))
+        if rank_margins is not None:
+            rank_margins.append(abs(abs(float(d)) - 1.0))      # only THIS decision can move a rank
         if (d >= 1 and n[i + 1] - n[i] > 1) or (d <= -1 and n[i - 1] - n[i] < -1):
             s = 1 if d > 0 else -1
             qp = q[i] + num(s) / (n[i + 1] - n[i - 1]) * (
@@ -190,3 +198,13 @@ def gen_roundtrips(rng, n):
     if n < 2 or rng.random() > 0.3:
         return []
     return sorted([rng.randrange(1, n), rng.choice(['pickle', 'dill', 'deepcopy', 'copy'])] for _ in range(rng.choice([1, 1, 2])))
+
+
+def excusable(ranks_differ, pre_state, q, x):
+    """a lock-step difference may be a matter of rounding only if a decision of that step lies within 1e-9 of its threshold —
+    and a difference in the RANKS only if a rank decision (|desired - rank| against 1) does: the parabolic-vs-neighbour
+    test decides heights, never ranks"""
+    mg, rmg = [], []
+    paper_step(dict(p=q, N=pre_state[0], q=list(pre_state[1]), n=[int(t) + 1 for t in pre_state[2]]), x, margins=mg, rank_margins=rmg)
+    pool = rmg if ranks_differ else mg
+    return bool(pool) and min(pool) < 1e-9
